@@ -16,7 +16,8 @@ def run(ctx):
     for t, r in common.standard_theorems(ctx, "Props.C09", THEOREMS):
         ctx.violation("theorem:" + t, "property theorem %s no longer checks: %s" % (t, r[:500]),
                       {"theorem_or_correspondence": "ZL.Props.C09." + t}, found_input=False)
-    d = common.harness_json(["c09"], timeout=1800)
+    cli = common.build_cli()
+    d = common.harness_json(["c09"], env={"VERIF_CLI": cli}, timeout=1800)
     gd = common.gendir("C09")
     reads = d["data"]["sig_reads"]
     direct = []
